@@ -76,6 +76,7 @@ fn main() {
         "tfb" => tfb::run_case,
         "tfb_threads" => tfb::run_threaded_case,
         "bbi" => bbi::run_case,
+        "readfile" => bbi::run_readfile,
         "refuse" => refuse::run_case,
         "reader" => reader::run_case,
         "slicing" => slicing::run_case,
